@@ -499,7 +499,9 @@ vtop_init(kdump_ctx_t *ctx)
 		return set_error(ctx, status,
 				 "Arch late init failed");
 
-	if (ctx->shared->ops->post_addrxlat &&
+	/* No format handler yet if no dump file has been opened. */
+	if (ctx->shared->ops &&
+	    ctx->shared->ops->post_addrxlat &&
 	    (status = ctx->shared->ops->post_addrxlat(ctx)) != KDUMP_OK)
 		return set_error(ctx, status,
 				 "Format late init failed");
